@@ -51,9 +51,22 @@ def gen(rng, tier):
         t += rng.choice([0.0, 0.0, 0.02, 0.1, 0.1, 0.4, 1.0])
         producer.append([round(t, 3), 'emit', rng.choice([1, 1, 2, 3, 5])])
     if cfg['fault']:
+        tf = round(rng.choice([0.05, 0.2, 0.5, 1.2]), 3)
         producer.insert(rng.randrange(len(producer) + 1),
-                        [round(rng.choice([0.05, 0.2, 0.5, 1.2]), 3),
-                         cfg['fault'], 0])
+                        [tf, cfg['fault'], 0])
+        if rng.random() < 0.5:
+            # aim emit()/call() at the instant the connection goes away
+            if rng.random() < 0.5:
+                aim = [['sleep_to', round(tf + rng.choice(
+                    [0.0, 0.0, 0.001, 0.003, 0.2, 0.201]), 4)]]
+            else:
+                # the application thread becomes runnable the moment the
+                # client notices the loss (a legal, if unlucky, moment to
+                # call emit)
+                aim = [['until_down', 5.0]]
+            aim += [[rng.choice(['emit', 'emit', 'call'])]
+                    for _ in range(rng.randrange(1, 4))]
+            consumer[0:0] = aim
     return {'cfg': cfg, 'consumer': consumer, 'producer': producer}
 
 
@@ -147,6 +160,35 @@ def _run(case, cfg, w):
             rec.add('final_disconnect')
         return _orig_set()
     sc.connected_event.set = _set
+    # the instant the client starts processing the final end of the
+    # connection, and every time an emit()/call() is released from its wait
+    # for a reconnection (the moment it looks at the connection state)
+    _hs = made[0].handlers.get('/', {}) if made else {}
+    _orig_final = _hs.get('__disconnect_final')
+    if _orig_final is not None:
+        if is_async:
+            async def _final(*a):
+                rec.add('final_begin')
+                return await _orig_final(*a)
+        else:
+            def _final(*a):
+                rec.add('final_begin')
+                return _orig_final(*a)
+        _hs['__disconnect_final'] = _final
+    _orig_wait = sc.connected_event.wait
+    if is_async:
+        async def _wait(*a, **k):
+            rec.add('ce_wait_enter', step=cur_step[0])
+            r = await _orig_wait(*a, **k)
+            rec.add('ce_wait_return', step=cur_step[0])
+            return r
+    else:
+        def _wait(*a, **k):
+            rec.add('ce_wait_enter', step=cur_step[0])
+            r = _orig_wait(*a, **k)
+            rec.add('ce_wait_return', step=cur_step[0])
+            return r
+    sc.connected_event.wait = _wait
     t0 = w.now()
     counter = [0]
     final_at = [None]      # virtual time at which the connection ended for good
@@ -213,6 +255,13 @@ def _run(case, cfg, w):
                         ecount += 1
                         r = await sc.call('ping', 'e%d' % ecount, timeout=2)
                         note(i, 'call', r)
+                    elif st[0] == 'sleep_to':
+                        await asyncio.sleep(max(0.0, t0 + st[1] - w.now()))
+                    elif st[0] == 'until_down':
+                        end = w.now() + st[1]
+                        while sc.connected_event.is_set() and sc.connected \
+                                and w.now() < end:
+                            await asyncio.sleep(0.0005)
                     else:
                         await asyncio.sleep(st[1])
                 except Exception as e:   # noqa
@@ -235,6 +284,13 @@ def _run(case, cfg, w):
                         ecount += 1
                         r = sc.call('ping', 'e%d' % ecount, timeout=2)
                         note(i, 'call', r)
+                    elif st[0] == 'sleep_to':
+                        kernel.sleep(max(0.0, t0 + st[1] - w.now()))
+                    elif st[0] == 'until_down':
+                        ce = sc.connected_event
+                        kernel.block(lambda: not ce.is_set() or
+                                     not sc.connected, st[1],
+                                     label='until_down')
                     else:
                         kernel.sleep(st[1])
                 except Exception as e:   # noqa
@@ -302,6 +358,32 @@ def _run(case, cfg, w):
                   'step %d' % r['step'])
     # emits issued reached the server, on the client's namespace
     sent = [r['val'] for r in results if r['kind'] == 'emit']
+    delivered = [a[0] for a in got_by_server if a]
+    for x in sent:
+        n = delivered.count(x)
+        if n > 1:
+            v.add('emit_delivered_twice', x)
+        if n == 0 and not fault:
+            v.add('emit_not_delivered', '%s returned normally on a healthy '
+                  'connection but never reached the server' % x)
+    # "raise DisconnectedError once the connection has ended for good": an
+    # emit()/call() that was released from its wait after the client began
+    # processing the final end of the connection must not return normally
+    fb = [e['seq'] for e in rec.events if e['kind'] == 'final_begin']
+    if fb:
+        for r in results:
+            if r['kind'] not in ('emit', 'call'):
+                continue
+            waits = [e['seq'] for e in rec.events
+                     if e['kind'] == 'ce_wait_return'
+                     and e['step'] == r['step'] and e['seq'] < r['seq']]
+            if waits and waits[-1] > fb[0] and \
+                    (r['kind'] == 'call' or
+                     delivered.count(r['val']) == 0):
+                v.add('emit_returned_after_final_disconnect', 'step %d %s: '
+                      'released from its wait at seq %d, after the final '
+                      'disconnect began (seq %d), and returned normally'
+                      % (r['step'], r['kind'], waits[-1], fb[0]), r['kind'])
     acked = [r for r in results if r['kind'] == 'call']
     for r in acked:
         if not (isinstance(r['val'], list) and r['val'][:1] == ['pong']):
